@@ -80,6 +80,23 @@ void *vf_malloc(size_t n) {
   }
   void *p = malloc(n);
   if (s.active) s.events.push_back({'m', n, p == nullptr, 0});
+  if (p) {
+    memset(p, 0xC9, n);  // fresh heap memory is not zero: nothing may rely on it
+    s.live[p] = {n, false};
+  }
+  return p;
+}
+// calloc is not used by the pinned tree; a tree that starts to use it gets the same ledger and fault schedule
+void *vf_calloc(size_t a, size_t b) {
+  auto &s = vf::shim::S();
+  size_t n = a * b;
+  if (s.should_fail() || (b && n / b != a)) {
+    s.events.push_back({'m', n, true, 0});
+    errno = ENOMEM;
+    return nullptr;
+  }
+  void *p = calloc(a, b);
+  if (s.active) s.events.push_back({'m', n, p == nullptr, 0});
   if (p) s.live[p] = {n, false};
   return p;
 }
@@ -97,6 +114,7 @@ void *vf_realloc(void *old, size_t n) {
   if (old && s.on_release) s.on_release(old, oldsize, 'r');
   void *p = realloc(old, n);
   if (s.active) s.events.push_back({'r', n, p == nullptr, 0});
+  if (p && n > oldsize && (old == nullptr || it != s.live.end())) memset((char *)p + oldsize, 0xC9, n - oldsize);  // the added part is not zero either
   if (p) {
     if (it != s.live.end()) s.live.erase(it);
     s.live[p] = {n, false};
@@ -145,7 +163,11 @@ int vf_munmap(void *p, size_t len) {
   auto it = s.live.find(p);
   if (it != s.live.end()) {
     if (s.on_release) s.on_release(p, it->second.size, 'U');
+    // unmapping fewer pages than were mapped leaves the tail mapped: it stays in the ledger (a leak unless it is
+    // unmapped later)
+    size_t whole = (it->second.size + 4095) & ~(size_t)4095, part = (len + 4095) & ~(size_t)4095;
     s.live.erase(it);
+    if (part < whole) s.live[(char *)p + part] = {whole - part, true};
   }
   if (s.active) s.events.push_back({'U', len, false, 0});
   return munmap(p, len);
